@@ -50,6 +50,9 @@ def parse(case, out):
     elif k == 7:
         d["rounds_done"], d["final_got"], d["final_ok"], d["stop_seen"] = out[2:6]
         d["total"], d["log"] = parse_log(out, 6)
+    elif k == 8:
+        d["readers"], d["completed"], d["intact"] = out[2:5]
+        d["total"], d["log"] = parse_log(out, 5)
     return d
 
 
@@ -182,6 +185,16 @@ def oracle(case, out):
             return "only %d of %d datagrams accepted by send_datagram_wait" % (d["sent"], case[1])
         if d["received_ok"] != d["received"] or d["received"] > d["sent"]:
             return "received %d datagrams, %d intact, %d sent" % (d["received"], d["received_ok"], d["sent"])
+        return None
+    if d["kind"] == 8:
+        if d["verdict"] != 0:
+            return "datagram-readers scenario did not finish"
+        if d["completed"] != d["readers"]:
+            return ("%d tasks were parked in recv_datagram() on clones of one connection and the peer queued %d datagrams "
+                    "back to back: only %d of the readers completed within 3 s, the others were left hanging although "
+                    "datagrams were waiting" % (d["readers"], d["readers"], d["completed"]))
+        if d["intact"] != d["completed"]:
+            return "%d of %d received datagrams differ from what was sent" % (d["completed"] - d["intact"], d["completed"])
         return None
     if d["kind"] == 6:
         if d["verdict"] != 0:
